@@ -195,7 +195,7 @@ type c07Run struct {
 // wait until both connections carry exactly the held streams
 func (r *c07Run) settle(dead map[int64]bool) {
 	w := r.w
-	deadline := time.Now().Add(8 * time.Second)
+	deadline := time.Now().Add(20 * time.Second)
 	stable := 0
 	for {
 		w.mu.Lock()
